@@ -317,10 +317,12 @@ def find_orfs(seq, rf='fwd', start='start', stop='stop', need_start='always', ne
         rf = (-1, -2, -3)
     elif rf == 'both':
         rf = (0, 1, 2, -1, -2, -3)
+    elif isinstance(rf, int):
+        rf = (rf,)
     orfs = []
     for frame in rf:
         i2 = None
-        while need_start == 'never' or len(starts[frame]) > 0 or (need_start=='once' and i2 is not None):
+        while need_start == 'never' or len(starts.get(frame, [])) > 0 or (need_start=='once' and i2 is not None):
             i1 = (frame if need_start == 'never' and i2 is None else
                   i2 if need_start in ('never', 'once') and i2 is not None else
                   starts[frame].pop(0).start())
